@@ -108,6 +108,7 @@ class Script:
             # Would throw error, but Bitcoin Core will read the number of bytes that are there (not what was promised)
             print(f"mismatch between length and consumed bytes {count} vs {length}")
             obj.raw = raw
+            obj.raw_commands = list(commands)
         else:
             # a script with non-minimal or oversized pushes does not serialize back
             # to the bytes it came from: keep them (they are what gets hashed)
@@ -117,6 +118,7 @@ class Script:
                 unchanged = False
             if not unchanged:
                 obj.raw = raw
+                obj.raw_commands = list(commands)
         return obj
 
     @classmethod
@@ -125,7 +127,9 @@ class Script:
         return cls.parse(raw=bytes.fromhex(hex_str))
 
     def raw_serialize(self):
-        if self.raw:
+        # the kept bytes stand for the commands they were parsed into: once the
+        # commands have been edited they no longer describe this script
+        if self.raw and getattr(self, "raw_commands", self.commands) == self.commands:
             return self.raw
         # initialize what we'll send back
         result = b""
